@@ -5,13 +5,15 @@ From GL Require Import Common.Bytes Table.TImpl Table.TSpec Table.TLib.
 Inductive lstep :=
 | LIns2 (v : value)
 | LIns3 (pos : Z) (v : value)
-| LRem1 (o : value)
-| LRem2 (pos : Z) (o : value)
+| LInsBad (raised : bool)                 (* table.insert(t, a, b, c): wrong number of arguments *)
+| LRem1 (o : option value)                (* None = no value returned *)
+| LRem2 (pos : Z) (o : option value)
 | LAssign (i : Z) (v : value)
+| LAssignK (k : key) (v : value)          (* t[k] = v for a key that is not a positive integer *)
 | LConcat (sep : bytes) (oi oj : option Z) (o : option bytes)       (* None = raised an error *)
 | LUnpack (oi oj : option Z) (o : list value)
 | LGetn (o : Z)
-| LMaxn (o : Z)
+| LMaxn (o : key)                         (* a number, as a numeric key *)
 | LLen (o : Z)
 | LRead (o : list value)                  (* rawget(t,1) .. rawget(t,#t+1) *)
 | LSort (c : cmp) (calls : list (value * value)) (raised : bool) (final : list value).
@@ -36,13 +38,15 @@ Definition impl_step (mai : Z) (t : tbl) (s : lstep) : bool * tbl :=
   match s with
   | LIns2 v => (true, tableInsert2 t v)
   | LIns3 pos v => (true, tableInsert3 mai t pos v)
-  | LRem1 o => let (v, t') := tableRemove1 t in (value_eqb v o, t')
-  | LRem2 pos o => let (v, t') := tableRemove2 t pos in (value_eqb v o, t')
+  | LInsBad raised => (eqb raised (negb (tableInsert_nargs_ok 4)), t)
+  | LRem1 o => let (v, t') := tableRemove1 t in (opt_eqb value_eqb v o, t')
+  | LRem2 pos o => let (v, t') := tableRemove2 t pos in (opt_eqb value_eqb v o, t')
+  | LAssignK k v => (true, RawSet mai t k v)
   | LAssign i v => (true, RawSet mai t (KInt i) v)
   | LConcat sep oi oj o => (obytes_eqb (tableConcat mai t sep oi oj) o, t)
   | LUnpack oi oj o => (vals_eqb (baseUnpack mai t oi oj) o, t)
   | LGetn o => (tableGetN t =? o, t)
-  | LMaxn o => (tableMaxN t =? o, t)
+  | LMaxn o => (key_eqb (tableMaxN t) o, t)
   | LLen o => (Len t =? o, t)
   | LRead o => (vals_eqb (map (RawGetInt mai t) (zseq 1 (Z.to_nat (Len t + 1)))) o, t)
   | LSort c calls raised final =>
@@ -63,8 +67,9 @@ Fixpoint impl_steps (mai : Z) (t : tbl) (ss : list lstep) : bool :=
 Definition check_impl (c : case) : bool := impl_steps (c_mai c) empty (c_steps c).
 
 (* ---------- the property on what was observed: the table as a Lua list ---------- *)
-(* state: Some l = the table is the list l (n = length l); None = an earlier step left the
-   domain of the property (position outside 1..n(+1), a hole): nothing more is claimed *)
+(* state: Some (l, x) = the table is the list l (n = length l) plus the entries x under keys that
+   are not positive integers; None = an earlier step left the domain of the property (insert
+   position outside 1..n+1, a hole, a positive integer key beyond n+1): nothing more is claimed *)
 Definition nonnil (v : value) : bool := negb (is_nil v).
 
 Fixpoint calls_in (l : list value) (calls : list (value * value)) : bool :=
@@ -73,33 +78,51 @@ Fixpoint calls_in (l : list value) (calls : list (value * value)) : bool :=
   | (a, b) :: r => memb value_eqb a l && memb value_eqb b l && calls_in l r
   end.
 
-Definition spec_step (st : option (list value)) (s : lstep) : bool * option (list value) :=
+Definition lstate := option (list value * smap).
+
+(* t[k] for an integer k *)
+Definition look (l : list value) (x : smap) (k : Z) : value :=
+  if 1 <=? k then lnth l k else sget x (KInt k).
+
+Definition is_pos_int (k : key) : bool := match k with KInt z => 1 <=? z | _ => false end.
+
+(* table.maxn: the largest positive numeric key (0 if none) *)
+Definition maxn_of (n : Z) (x : smap) : key :=
+  fold_left (fun mx p => if nonnil (sget x (fst p)) && num_ltb mx (fst p) then fst p else mx) x (KInt n).
+
+Definition spec_step (st : lstate) (s : lstep) : bool * lstate :=
   match st with
   | None => (true, None)
-  | Some l =>
+  | Some (l, x) =>
     let n := len l in
+    let keep l' := Some (l', x) in
     match s with
-    | LIns2 v => (true, Some (if is_nil v then l else l ++ [v]))
+    | LIns2 v => (true, keep (if is_nil v then l else l ++ [v]))
     | LIns3 pos v =>
-      if (1 <=? pos) && (pos <=? n + 1) && nonnil v then (true, Some (insert_at pos v l)) else (true, None)
+      if (1 <=? pos) && (pos <=? n + 1) && nonnil v then (true, keep (insert_at pos v l)) else (true, None)
+    | LInsBad raised => (raised, st)
     | LRem1 o =>
-      if n =? 0 then (is_nil o, Some l)
-      else (value_eqb o (lnth l n), Some (remove_at n l))
+      if n =? 0 then (opt_eqb value_eqb o None, st)
+      else (opt_eqb value_eqb o (Some (lnth l n)), keep (remove_at n l))
     | LRem2 pos o =>
-      if (1 <=? pos) && (pos <=? n) then (value_eqb o (lnth l pos), Some (remove_at pos l)) else (true, None)
+      if (1 <=? pos) && (pos <=? n) then (opt_eqb value_eqb o (Some (lnth l pos)), keep (remove_at pos l))
+      else (opt_eqb value_eqb o None, st)
     | LAssign i v =>
-      if (i =? n + 1) then (true, Some (if is_nil v then l else l ++ [v]))
-      else if (1 <=? i) && (i <=? n) && nonnil v then (true, Some (upd l (Z.to_nat (i - 1)) v))
-      else if (i =? n) && (1 <=? n) && is_nil v then (true, Some (remove_at n l))
+      if (i =? n + 1) then (true, keep (if is_nil v then l else l ++ [v]))
+      else if (1 <=? i) && (i <=? n) && nonnil v then (true, keep (upd l (Z.to_nat (i - 1)) v))
+      else if (i =? n) && (1 <=? n) && is_nil v then (true, keep (remove_at n l))
+      else if i <=? 0 then (true, Some (l, sset x (KInt i) v))
       else (true, None)
+    | LAssignK k v =>
+      if is_pos_int k then (true, None) else (true, Some (l, sset x k v))
     | LConcat sep oi oj o =>
       let i := optz oi 1 in let j := optz oj n in
-      if (1 <=? i) && (j <=? n) then (obytes_eqb (concat_spec l sep i j) o, st) else (true, st)
+      (obytes_eqb (concat_specf (look l x) sep i j) o, st)
     | LUnpack oi oj o =>
       let i := optz oi 1 in let j := optz oj n in
-      (vals_eqb (unpack_spec l i j) o, st)
+      (vals_eqb (unpack_specf (look l x) i j) o, st)
     | LGetn o => (o =? n, st)
-    | LMaxn o => (o =? n, st)
+    | LMaxn o => (key_eqb o (maxn_of n x), st)
     | LLen o => (o =? n, st)
     | LRead o => (vals_eqb (l ++ [VNil]) o, st)
     | LSort c calls raised final =>
@@ -107,17 +130,17 @@ Definition spec_step (st : option (list value)) (s : lstep) : bool * option (lis
        && calls_in l calls
        && (if raised then may_raise c l
            else if swo_on c l then sorted_by (cmp_fun c 0) final else true),
-       Some final)
+       keep final)
     end
   end.
 
-Fixpoint spec_steps (st : option (list value)) (ss : list lstep) : bool :=
+Fixpoint spec_steps (st : lstate) (ss : list lstep) : bool :=
   match ss with
   | [] => true
   | s :: r => let (ok, st') := spec_step st s in if ok then spec_steps st' r else false
   end.
 
-Definition check_spec (c : case) : bool := spec_steps (Some []) (c_steps c).
+Definition check_spec (c : case) : bool := spec_steps (Some ([], [])) (c_steps c).
 
 (* debugging aid *)
 Fixpoint impl_first_fail (mai : Z) (t : tbl) (ss : list lstep) (i : Z) : option Z :=
@@ -125,10 +148,10 @@ Fixpoint impl_first_fail (mai : Z) (t : tbl) (ss : list lstep) (i : Z) : option 
   | [] => None
   | s :: r => let (ok, t') := impl_step mai t s in if ok then impl_first_fail mai t' r (i + 1) else Some i
   end.
-Fixpoint spec_first_fail (st : option (list value)) (ss : list lstep) (i : Z) : option Z :=
+Fixpoint spec_first_fail (st : lstate) (ss : list lstep) (i : Z) : option Z :=
   match ss with
   | [] => None
   | s :: r => let (ok, st') := spec_step st s in if ok then spec_first_fail st' r (i + 1) else Some i
   end.
 Definition where_fails (c : case) : option Z * option Z :=
-  (impl_first_fail (c_mai c) empty (c_steps c) 0, spec_first_fail (Some []) (c_steps c) 0).
+  (impl_first_fail (c_mai c) empty (c_steps c) 0, spec_first_fail (Some ([], [])) (c_steps c) 0).
